@@ -74,6 +74,7 @@ def run(ck):
     ck.rule("C09.R3", "Layered ordering: inner first for notifications, outer first for vetoes", floor=16)
     ck.rule("C09.R4", "Dispatch::event delivers iff event_enabled", floor=1)
     ck.rule("C09.R0", "wrapper impls discovered", floor=18)
+    ck.rule("C09.R12", "a collector wrapper that looks spans up in the wrapped collector also lets per-layer filters register with it (register_filter forwarded)", floor=3)
     ck.rule("C09.R11", "an empty Vec of layers is recognised as an absent layer (it answers the none-layer marker exactly when it holds nothing)", floor=2)
     ck.rule("C09.R10", "a close reaches every layer: the registry releases its own references through the owning stack, never by closing itself (as C05.R5)", floor=2)
     ck.rule("C09.R9", "a type that is both a Subscribe and a per-subscriber Filter implements the same hooks in both roles, through the same methods of its own", floor=20)
@@ -99,6 +100,7 @@ def run(ck):
     from rules import C05
     C05.r5(ck, F, rid="C09.R10")
     empty_vec_is_absent(ck, F)
+    lookup_wrappers_register_filters(ck, F)
     # a dispatcher's registration is announced once: by the callsite registry when the Dispatch is created, and by nobody else
     # (wrappers forwarding the same call to their wrapped value excepted)
     for cfgname, FF in (("", F), ("[nostd-core]", Facts("nostd-core"))):
@@ -118,6 +120,34 @@ def run(ck):
         else:
             ck.bad("C09.R8", key, str(origin),
                    "Collect::on_register_dispatch is invoked (not merely forwarded) from %s: every layer of a stack installed that way is told about the same dispatcher more than once" % origin)
+
+
+def lookup_wrappers_register_filters(ck, F, rid="C09.R12"):
+    """`.with(layer.with_filter(f))` asks the collector below for a filter id (LookupSpan::register_filter). The trait's
+    default panics ("does not currently support filters"), so a wrapper whose span_data forwards to a wrapped collector
+    (Box, Arc, Layered, fmt::Collector) must forward register_filter too, or the wrapped stack stops accepting filtered
+    layers -- wrapping would change what can be observed."""
+    LS = "tracing_subscriber::registry::LookupSpan"
+    n = 0
+    for imp in F.impls_of(LS):
+        sd = imp["methods"].get("span_data")
+        b = F.body(sd) if sd else None
+        if b is None:
+            continue
+        fwd = [t for bb, t in b.calls() if t["callee"].get("trait") == LS and t["callee"].get("method") == "span_data"]
+        if not fwd:
+            continue        # a real store (the Registry), not a wrapper
+        n += 1
+        key = "LookupSpan for %s forwards register_filter" % imp["self_ty"]
+        rf = imp["methods"].get("register_filter")
+        rb = F.body(rf) if rf else None
+        if rb is not None and any(t["callee"].get("trait") == LS and t["callee"].get("method") == "register_filter" for bb, t in rb.calls()):
+            ck.ok(rid, key, fn=rf)
+        else:
+            ck.bad(rid, key, imp["span"], "span_data is forwarded to the wrapped collector but register_filter is not: adding a per-layer-filtered layer on top of this "
+                   "wrapper panics in the trait's default, although the same stack without the wrapper accepts it")
+    if n < 3:
+        ck.bad(rid, "LookupSpan wrappers found", LS, "only %d forwarding impls of LookupSpan seen (expected Box, Arc, Layered, fmt::Collector)" % n)
 
 
 def empty_vec_is_absent(ck, F, rid="C09.R11"):
